@@ -107,6 +107,29 @@ def tablets(run, fx):
     else:
         run.violated('TABLETS', 'ctor releases on failed check', ctor.where(), 'Face::Table\'s constructor no longer releases the borrowed buffer on every '
                      'path where TtfUtil::CheckTable rejected it: a corrupt table is never passed to release_table')
+    # --- a borrowed buffer is only ever dropped through release(): in the constructor no other store to _p can be reached from
+    #     the get_table store without release() in between, unless _p is known null there (nothing was borrowed)
+    from .util import reaches_avoiding
+    pstores = [e for _, e in ctor.elements() if e['k'] == 'BinaryOperator' and e['op'] == '=' and ctor.render(ctor.N(e['c'][0])) == 'this->_p']
+    gstore = [e for e in pstores if any(x['i'] == gt[0]['i'] for x in ctor.walk(e['c'][1]) if 'i' in x)]
+    if len(gstore) != 1:
+        run.broken('TABLETS', 'ctor drops a borrowed buffer only through release()', 'the store of get_table\'s result into _p was not found', ctor.where())
+    else:
+        badst = []
+        for e in pstores:
+            if e is gstore[0]:
+                continue
+            if reaches_avoiding(ctor, gstore[0], e, avoid=rel):
+                fs = dom.facts_at(ctor, e['i'])
+                if not any(f[:3] == ('this->_p', '==', '0') for f in fs):
+                    badst.append(e)
+        if badst:
+            run.violated('TABLETS', 'ctor drops a borrowed buffer only through release()', ctor.loc(badst[0]),
+                         'Face::Table\'s constructor overwrites _p (%s) on a path where it may still hold the pointer get_table returned and release() has not run: '
+                         'that buffer is never passed to release_table' % ctor.render(badst[0]))
+        else:
+            run.held('TABLETS', 'ctor drops a borrowed buffer only through release()', ctor.loc(gstore[0]),
+                     '%d other store(s) to _p in the constructor, none reachable from the get_table store without release()' % (len(pstores) - 1))
     # --- release()
     rl = fx.one(T + '::release')
     rt = [e for _, e in rl.elements() if e['k'] == 'CallExpr' and not e.get('fq') and 'release_table' in rl.render(e)]
@@ -383,8 +406,107 @@ def _alloc_failure_blocks(fn):
     fn.__dict__['_alloc_fail_edges'] = dom.edges_with(fn, lambda f: f[0] in names and f[1] == '==' and f[2] == '0')
     return out
 
+def takes_ownership(fx, callee_key, j, depth=0):
+    """does the callee keep, free or hand on the pointer it receives as argument j?  (summary over its own facts; a callee
+    without facts -- free, realloc, fclose, qsort -- is assumed to take it: never a reason for an alarm)"""
+    memo = fx.__dict__.setdefault('_takes', {})
+    if (callee_key, j) in memo:
+        return memo[(callee_key, j)]
+    raw = fx.raw['functions'].get(callee_key)
+    if raw is None or not raw.get('blocks'):
+        return True
+    memo[(callee_key, j)] = False          # cycle guard
+    f = fx.fn(callee_key)
+    ps = f.f.get('params') or []
+    if j >= len(ps):
+        memo[(callee_key, j)] = True
+        return True
+    t = (ps[j].get('t') or '')
+    if '*' not in t or t.rstrip().endswith('&'):
+        res = '*' in t                       # T *& : may re-seat / keep; a by-value object or a reference to one is only read
+        memo[(callee_key, j)] = res
+        return res
+    vids = {ps[j]['vid']}
+
+    def isv(x):
+        x = f.strip_all_casts(x)
+        return x['k'] == 'DeclRefExpr' and x.get('vid') in vids
+    res = False
+    for _round in range(2):                  # second round: local aliases of the parameter
+        for _, u in f.elements():
+            k = u['k']
+            if k == 'DeclStmt':
+                for d in u['decls']:
+                    if d.get('init') is not None and d.get('dk') == 'Var' and '*' in (d.get('t') or '') and isv(d['init']):
+                        vids.add(d['vid'])
+            elif k == 'ReturnStmt' and u.get('c') and isv(u['c'][0]):
+                res = True
+            elif k == 'CXXDeleteExpr' and isv(u['c'][0]):
+                res = True
+            elif k == 'BinaryOperator' and u['op'] == '=' and isv(u['c'][1]):
+                l = f.strip(u['c'][0])
+                if l['k'] == 'DeclRefExpr' and l.get('dk') in ('Var', 'ParmVar') and not (l.get('t') or '').rstrip().endswith('&'):
+                    if l.get('vid') is not None:
+                        vids.add(l['vid'])
+                else:
+                    res = True
+            elif k == 'Init' and u.get('init') is not None and isv(u['init']):
+                res = True
+            elif k == 'CXXNewExpr' and u.get('place') and any(p_ is not None and isv(p_) for p_ in u['place']):
+                res = True
+            elif k in CALL_KINDS:
+                args = (u.get('args') if 'args' in u else u.get('c')) or []
+                for jj, a in enumerate(args):
+                    if a is None or not isv(a):
+                        continue
+                    key = u.get('fm')
+                    if key not in fx.raw['functions']:
+                        key = '%s@%s' % (key, f.f.get('unit'))
+                    if key not in fx.raw['functions']:
+                        res = True               # external or unresolved callee
+                    elif depth < 4 and takes_ownership(fx, key, jj, depth + 1):
+                        res = True
+    memo[(callee_key, j)] = res
+    return res
+
+
+def fresh_returning(fx):
+    """functions every return of which hands back a fresh allocation (new / allocator / another such function) or null: their
+    caller owns the result.  Fixpoint over the resolved call graph; pointer-returning functions only."""
+    if hasattr(fx, '_fresh_fns'):
+        return fx._fresh_fns
+    fresh = set()
+    cands = [f for f in fx.all_fns() if '*' in (f.f.get('ret') or '') and f.blocks and not f.f.get('implicit')]
+    changed = True
+    while changed:
+        changed = False
+        for f in cands:
+            if f.q in fresh:
+                continue
+            rets = [e for _, e in f.elements() if e['k'] == 'ReturnStmt' and e.get('c')]
+            if not rets:
+                continue
+            ok, some = True, False
+            for r in rets:
+                x = f.strip_all_casts(f.deref(r['c'][0]))
+                if x['k'] == 'CXXNewExpr' and x.get('nplace', 0) == 0:
+                    some = True
+                elif (x.get('fq') or '').split('<')[0] in ALLOC_FNS or (x.get('fq') in fresh and x['k'] in CALL_KINDS):
+                    some = True
+                elif f.is_null(x):
+                    pass
+                else:
+                    ok = False
+            if ok and some:
+                fresh.add(f.q)
+                changed = True
+    fx._fresh_fns = fresh
+    return fresh
+
+
 def ownlocal(run, fx, reach_q):
     n = 0
+    fresh = fresh_returning(fx)
     for fn in fx.all_fns():
         if fn.f.get('implicit'):
             continue
@@ -396,33 +518,78 @@ def ownlocal(run, fx, reach_q):
                         continue
                     init = fn.strip_all_casts(dd['init'])
                     isalloc = (init['k'] == 'CXXNewExpr' and init.get('nplace', 0) == 0) or \
-                              ((init.get('fq') or '').split('<')[0] in ALLOC_FNS)
+                              ((init.get('fq') or '').split('<')[0] in ALLOC_FNS) or \
+                              (init['k'] in CALL_KINDS and init.get('fq') in fresh)
                     if isalloc and '*' in dd.get('t', ''):
                         allocs.append((e, dd))
+            elif e['k'] == 'BinaryOperator' and e['op'] == '=' and fn.is_root(e['i']) or (e['k'] == 'BinaryOperator' and e['op'] == '='):
+                # a local that receives a fresh allocation by assignment (`T *p = 0; ... p = new T` / `a = p = clone()`): the
+                # innermost assignment whose right-hand side IS the allocation
+                l = fn.strip(e['c'][0])
+                r = fn.strip_all_casts(e['c'][1])
+                isalloc = (r['k'] == 'CXXNewExpr' and r.get('nplace', 0) == 0) or ((r.get('fq') or '').split('<')[0] in ALLOC_FNS) or \
+                          (r['k'] in CALL_KINDS and r.get('fq') in fresh)
+                if isalloc and l['k'] == 'DeclRefExpr' and l.get('dk') == 'Var' and l.get('vid') is not None and '*' in (l.get('t') or ''):
+                    if not any(l.get('vid') == dd_['vid'] for _, dd_ in allocs):
+                        allocs.append((e, {'n': l['d'].split('::')[-1], 'vid': l['vid'], 't': l.get('t')}))
         for e, dd in allocs:
             n += 1
             inst = '%s local %s@%s' % (fn.q, dd['n'], e['ln'])
             vid = dd['vid']
             sinks = set()
             sink_elems = set()
+            vids = {vid}
+            # plain local / parameter copies of the pointer are aliases, not hand-overs: a sink through any of them counts
+            for _r in range(2):
+                for _, u in fn.elements():
+                    if u['k'] == 'BinaryOperator' and u['op'] == '=':
+                        l = fn.strip(u['c'][0])
+                        r = fn.strip_all_casts(u['c'][1])
+                        while r['k'] == 'BinaryOperator' and r['op'] == '=':
+                            r = fn.strip(r['c'][0])
+                        if r['k'] == 'DeclRefExpr' and r.get('vid') in vids and l['k'] == 'DeclRefExpr' and l.get('dk') in ('Var', 'ParmVar') \
+                                and l.get('vid') is not None and not (l.get('t') or '').rstrip().endswith('&'):
+                            vids.add(l['vid'])
+                    elif u['k'] == 'DeclStmt':
+                        for d_ in u['decls']:
+                            if d_.get('init') is not None and d_.get('dk') == 'Var' and '*' in (d_.get('t') or ''):
+                                r = fn.strip_all_casts(d_['init'])
+                                if r['k'] == 'DeclRefExpr' and r.get('vid') in vids:
+                                    vids.add(d_['vid'])
+
+            def isv(x):
+                x = fn.strip_all_casts(x)
+                return x['k'] == 'DeclRefExpr' and x.get('vid') in vids
+
+            def rvalue_use(x):
+                """the pointer itself is used as a value somewhere in expression x (not merely assigned to inside it)"""
+                x = fn.strip(x)
+                if x['k'] == 'BinaryOperator' and x['op'] == '=':
+                    return rvalue_use(x['c'][1])
+                return any(isv(y) for y in fn.walk(x))
             for _, u in fn.elements():
                 k = u['k']
                 uses = False
-
-                def isv(x):
-                    x = fn.strip_all_casts(x)
-                    return x['k'] == 'DeclRefExpr' and x.get('vid') == vid
                 if k == 'ReturnStmt' and u.get('c') and any(isv(x) for x in fn.walk(u['c'][0])):
                     uses = True
                 elif k == 'CXXDeleteExpr' and isv(u['c'][0]):
                     uses = True
                 elif k in CALL_KINDS:
                     args = (u.get('args') if 'args' in u else u.get('c')) or []
-                    if any(a is not None and any(isv(x) for x in fn.walk(a)) for a in args):
-                        uses = True
-                elif k == 'BinaryOperator' and u['op'] == '=' and any(isv(x) for x in fn.walk(u['c'][1])):
+                    for jj, a in enumerate(args):
+                        if a is None or not any(isv(x) for x in fn.walk(a)):
+                            continue
+                        if not isv(a):
+                            uses = True          # an expression built from the pointer (p + n, &p->x, p[i]): kept as before
+                            continue
+                        key = u.get('fm')
+                        if key not in fx.raw['functions']:
+                            key = '%s@%s' % (key, fn.f.get('unit'))
+                        if key not in fx.raw['functions'] or takes_ownership(fx, key, jj if not (u['k'] == 'CXXOperatorCallExpr') else jj):
+                            uses = True
+                elif k == 'BinaryOperator' and u['op'] == '=' and rvalue_use(u['c'][1]):
                     l = fn.strip(u['c'][0])
-                    if not (l['k'] == 'DeclRefExpr' and l.get('vid') == vid):
+                    if not (l['k'] == 'DeclRefExpr' and l.get('vid') in vids):
                         uses = True
                 elif k == 'Init' and u.get('init') is not None and any(isv(x) for x in fn.walk(u['init'])):
                     uses = True
@@ -512,4 +679,16 @@ def run(run):
     ownlocal(run, fx, None)
     from . import noescape
     noescape.check(run, E, 'NOESCAPE')
+    # build-time siblings: code under #ifndef GRAPHITE2_NFILEFACE must uphold the same ownership rules when the macro is set.
+    # The AST-only ownership rules are cheap, so the quick tier already evaluates them on that configuration as well
+    # (the thorough tier re-runs everything on every configuration anyway).
+    if not run.cfg_tag and not run.cfg_map:
+        try:
+            run.cfg_tag = 'nofile'
+            fx2 = run.facts('nofile')
+            tablets(run, fx2)
+            ownfield(run, fx2)
+            ownlocal(run, fx2, None)
+        finally:
+            run.cfg_tag = ''
     run.assume('allocation failure is outside the quantifier (histories, configurations, inputs)')
